@@ -240,9 +240,10 @@ func runC15(c *c15Case) (v verdict, sig string, err error) {
 			if _, perr := r.replica[k.Proto].decodeFlow(r.exps[k.Exp].addr, ann); perr != nil {
 				return fail("", "harness: %v", perr)
 			}
-			r.exps[k.Exp].send(proc.port(k.Proto), ann)
 			ok := false
 			for try := 0; try < 20 && !ok; try++ {
+				// UDP may lose a datagram: the announcement is repeated with every attempt
+				r.exps[k.Exp].send(proc.port(k.Proto), ann)
 				time.Sleep(time.Duration(5+10*try) * time.Millisecond)
 				data := r.dataMsg(k)
 				want, e := r.expected(k, data)
